@@ -233,6 +233,10 @@ def newton_Solver(coef, parity, **kwargs):
     # if targetPre:
     #     coef = -1*coef
     
+    # Work in double precision whatever container the coefficients arrive in: a float16 / float32 array would otherwise
+    # carry its precision into the initial protocol, whose first residual can then round to zero.
+    coef = np.asarray(coef, dtype=np.float64)
+
     # Set an initial guess for the reduced phases which is approximately correct locally around the origin.
     reduced_phases = coef/2
 
